@@ -18,17 +18,17 @@ make)
   mkdir -p "$D/verif/tmp"
   echo "$D" ;;
 sync)
-  git -C "$D/repo" checkout -q -- . ; git -C "$D/repo" checkout -q --detach "${LAB_REPO_REV:-$(git -C /repo rev-parse HEAD)}"
+  git -C "$D/repo" reset -q --hard HEAD ; git -C "$D/repo" checkout -q --detach "${LAB_REPO_REV:-$(git -C /repo rev-parse HEAD)}"
   rsync -a --delete --exclude harness/target --exclude harness/target-plain --exclude tmp --exclude .git --exclude replays "$VSRC/" "$D/verif/"
   sed -i "s#path = \"/repo\"#path = \"$D/repo\"#" "$D/verif/harness/Cargo.toml" ;;
 try)
   P="$3"; ID="$4"; TIER="${5:-quick}"
-  cd "$D/repo" && git checkout -q -- . && git clean -fdq src tests 2>/dev/null
-  git apply "$P" 2>/dev/null || git apply -3 "$P" >/dev/null 2>&1 || { git checkout -q -- .; echo "patch does not apply"; exit 3; }
+  cd "$D/repo" && git reset -q --hard HEAD && git clean -fdq src tests 2>/dev/null
+  git apply "$P" 2>/dev/null || git apply -3 "$P" >/dev/null 2>&1 || { git reset -q --hard HEAD; echo "patch does not apply"; exit 3; }
   git reset -q 2>/dev/null
   cd "$D/verif" && VERIF_REPO="$D/repo" ./check "$ID" "$TIER" > "$D/try_$ID.log" 2>&1
   RC=$?
-  git -C "$D/repo" checkout -q -- .
+  git -C "$D/repo" reset -q --hard HEAD
   grep -E "^VIOLATION|^KNOWN-FINDING|\[done\]" "$D/try_$ID.log" | cut -c1-240
   echo "check exit=$RC" ;;
 rm)
